@@ -31,6 +31,8 @@ MESSAGES = {
     "message": ([], ["device", "timestamp", "message"], None, None),
     "pingRequest": (["uid"], [], None, None),
     "pingReply": (["uid"], [], None, None),
+    # registered by the library as a stand-alone message (same tag as the setLightVector part)
+    "oneLight": (["name"], [], "state", None),
 }
 for _k in VKINDS:
     req = ["device", "name", "state"] + ([] if _k == "Light" else ["perm"]) + (["rule"] if _k == "Switch" else [])
@@ -179,6 +181,8 @@ def msg_spec(draw, kinds=None, max_children=4, max_cp=0x10FFFF):
     text = None
     if trule == "blobenable":
         text = draw(st.sampled_from(BLOBENABLE))
+    if trule == "state":
+        text = draw(st.sampled_from(STATES))
     children = []
     if child:
         children = draw(st.lists(part_spec(child, max_cp), min_size=0, max_size=max_children))
@@ -298,7 +302,7 @@ def _attrs(attrs, ch: Chooser, ascii_only):
     out = []
     for k, v in order:
         q = '"' if ch.next(2) == 0 else "'"
-        sep = " " if ch.next(4) else "\n  "
+        sep = "\n  " if ch.next(4) == 3 else " "
         out.append(f"{sep}{k}={q}{_esc(v, q, ch, ascii_only=ascii_only)}{q}")
     return "".join(out)
 
@@ -366,6 +370,6 @@ def et_view(el):
     return (
         el.tag,
         tuple(sorted(el.attrib.items())),
-        norm_text(el.text) if len(el) == 0 or True else None,
+        norm_text(el.text),
         tuple(et_view(c) for c in el),
     )
